@@ -65,7 +65,9 @@ TOLERANCES = {
               'up to 2*ndim roundings for the Laplacian accumulation',
     'data': '|op(x) - (M x + b)| <= (4 + 2*ndim) * eps * (|M||x| + |b|) per '
             'entry, reference in long double',
-    'gram': 'max|N^T G_X - G_Y M| <= 64*eps*max(|lhs|,|rhs|)',
+    'gram': 'max|N^T G_X - G_Y M| <= 64*eps*max(|lhs|,|rhs|) (dim <= 24); '
+            'otherwise |<Au,v> - <u,A*v>| <= 64*eps*sqrt(m)*|Au||v| for two '
+            'generic pairs',
 }
 ASSUMPTIONS = [
     'adjoint clause only on grids without boundary nodes (uniformly weighted '
@@ -199,7 +201,7 @@ def _strategy(draw):
                for _ in range(nd)]
     return {'shape': shape, 'min': mn, 'cell': cell, 'dtype': dtype,
             'nob': nob, 'method': method, 'mode': mode, 'pad_const': c,
-            'range': draw(st.sampled_from(['same', 'same', 'shifted'])),
+            'range': draw(st.sampled_from(['same', 'same', 'astype'])),
             'fd_out': draw(st.sampled_from(['none', 'C', 'F', 'strided'])),
             'op_out': draw(st.booleans()),
             'seed': draw(st.integers(0, 2 ** 31 - 1))}
@@ -420,7 +422,8 @@ def _opmatrix(op, sig):
     return M, off
 
 
-def _check_operator(name, op, ref, desc, region, K, eps, cplx, notes):
+def _check_operator(name, op, ref, desc, region, K, eps, cplx, notes,
+                    cache):
     """``ref = (M, b, RM, Rb)`` for the given pad constant (b, Rb already
     scaled by it)."""
     mode, c = desc['mode'], desc['pad_const']
@@ -515,9 +518,10 @@ def _check_operator(name, op, ref, desc, region, K, eps, cplx, notes):
         coltol = _rowtol(K, eps, RM, 0 * np.asarray(Rb), cplx)
     _compare_matrix(asig, N, noff, ref_M.T, np.zeros(ref_M.shape[1]),
                     coltol, name + '.adjoint vs transpose')
-    # Gram identity in the library's inner products (small cases)
-    if ref_M.shape[0] + ref_M.shape[1] <= 40:
-        GX, GY = flat.gram(op.domain), flat.gram(op.range)
+    # adjoint identity in the library's own inner products: full Gram
+    # matrices for small spaces, two generic pairs otherwise
+    if ref_M.shape[0] + ref_M.shape[1] <= 24:
+        GX, GY = _gram(op.domain, cache), _gram(op.range, cache)
         lhs, rhs = N.T @ GX, GY @ got_M
         scale = max(np.abs(lhs).max(initial=0), np.abs(rhs).max(initial=0),
                     1e-300)
@@ -526,8 +530,27 @@ def _check_operator(name, op, ref, desc, region, K, eps, cplx, notes):
             raise Violation('C13|gram|' + sig_tail,
                             'Gram identity defect {:.3g}'.format(defect))
         notes['gram_checked'] += 1
+    else:
+        rng = np.random.RandomState((int(desc['seed']) + 5) % (2 ** 32))
+        for _ in np.arange(2):
+            u = flat.unflat(rng.uniform(-1, 1, ref_M.shape[1]), op.domain)
+            v = flat.unflat(rng.uniform(-1, 1, ref_M.shape[0]), op.range)
+            a = flat.sinner(op.range, op(u), v)
+            b = flat.sinner(op.domain, u, adj(v))
+            scale = float(op.range.norm(op(u)) * op.range.norm(v)) + 1e-300
+            if not abs(a - b) <= 64 * eps * np.sqrt(ref_M.shape[0]) * scale:
+                raise Violation('C13|gram|' + sig_tail,
+                                '<Au,v> = {!r} but <u,A*v> = {!r}'.format(
+                                    a, b))
+        notes['inner_pairs_checked'] += 1
     notes['adjoint_checked'] += 1
     return 'linear'
+
+
+def _gram(space, cache):
+    if space not in cache:
+        cache[space] = flat.gram(space)
+    return cache[space]
 
 
 def _flat_data(space, seed):
@@ -553,6 +576,7 @@ def run_case(desc):
     nob = desc['nob']
     K = K_BASE + 2 * nd
     notes = collections.Counter()
+    cache = {}
 
     # grid: ncells = n - (#boundary nodes)/2
     mins, maxs, dxs = [], [], []
@@ -574,16 +598,16 @@ def run_case(desc):
     sd = {'kind': 'discr', 'min': mins, 'max': maxs, 'shape': shape,
           'dtype': dtype, 'nodes_on_bdry': nob}
     space = build.build_space(sd)
-    if desc['range'] == 'shifted':
-        sdr = dict(sd, min=[m + 1.0 for m in mins],
-                   max=[m + 1.0 for m in maxs])
-        ran = build.build_space(sdr)
-        # the shift must not change the cell sides (it can in the last bit)
-        if not np.array_equal(ran.cell_sides, space.cell_sides):
-            ran = space
+    if desc['range'] == 'astype':
+        # the only other range the operators admit: same grid, other
+        # precision ("up to dtype")
+        other = {'float64': 'float32', 'float32': 'float64',
+                 'complex128': 'complex64', 'complex64': 'complex128'}[dtype]
+        ran = build.build_space(dict(sd, dtype=other))
+        eps = max(eps, _eps(other))
     else:
         ran = space
-    range_kind = 'same' if ran is space else 'shifted'
+    range_kind = desc['range']
     for a in range(nd):
         if not abs(space.cell_sides[a] - dxs[a]) <= 4 * np.finfo(float).eps \
                 * dxs[a]:
@@ -614,7 +638,7 @@ def run_case(desc):
                np.abs(M).sum(axis=1) / dxs[axis],
                abs(cc) * np.abs(b) / dxs[axis])
         kinds.append(_check_operator('PartialDerivative', op, ref, desc,
-                                     preg, K, eps, cplx, notes))
+                                     preg, K, eps, cplx, notes, cache))
 
     pran = odl.ProductSpace(ran, nd)
     grad = Gradient(space, range=pran, method=method, pad_mode=mode,
@@ -628,13 +652,13 @@ def run_case(desc):
         M, b = S.gradient_matrix(shape, dxs, method, mode)
         ref = (M, cc * b, np.abs(M).sum(axis=1), abs(cc) * np.abs(b))
         kinds.append(_check_operator('Gradient', grad, ref, desc, region, K,
-                                     eps, cplx, notes))
+                                     eps, cplx, notes, cache))
         M, b = S.divergence_matrix(shape, dxs, method, mode)
         Rb = sum(np.abs(S.partial_matrix(tuple(shape), a, method, mode)[1])
                  / dxs[a] for a in range(nd))
         ref = (M, cc * b, np.abs(M).sum(axis=1), abs(cc) * Rb)
         kinds.append(_check_operator('Divergence', div, ref, desc, region, K,
-                                     eps, cplx, notes))
+                                     eps, cplx, notes, cache))
 
     # Laplacian (independent of method)
     lreg = '{},n={}'.format(mode, _sizeclass(nmin))
@@ -661,7 +685,7 @@ def run_case(desc):
                 Rb = Rb + (np.abs(bf) + np.abs(bb)) / dxs[a] ** 2
             ref = (M, cc * b, RM, abs(cc) * Rb)
             kinds.append(_check_operator('Laplacian', lap, ref, desc, lreg,
-                                         K, eps, cplx, notes))
+                                         K, eps, cplx, notes, cache))
 
     # ---- outcome ------------------------------------------------------------
     strata = ['mode:' + mode, 'method:' + method, 'ndim:{}'.format(nd),
@@ -705,5 +729,5 @@ REQUIRED_STRATA = (['mode:' + m for m in S.ALL_MODES] +
                    ['method:' + m for m in S.METHODS] +
                    ['ndim:1', 'ndim:2', 'ndim:3', 'nmin:2', 'nmin:3',
                     'nmin:4', 'nmin:5+', 'affine', 'short-axis-rejected',
-                    'nob:yes', 'range:shifted', 'op_out:True', 'fd_out:F',
+                    'nob:yes', 'range:astype', 'op_out:True', 'fd_out:F',
                     'dtype:complex64', 'pad_const:complex'])
